@@ -162,3 +162,27 @@ Proof.
 Qed.
 Theorem final_out_trunc calc : 0 <= calc -> dtrunc_int calc * P <= calc < dtrunc_int calc * P + P.
 Proof. apply dtrunc_int_bracket. Qed.
+
+(* ---- a step that does not reach its target never charges more than what is left ----
+   The amount consumed by such a step is rounded up to a whole unit and then capped at the
+   remaining amount, so the fee charge [remaining - amount] is defined and non-negative: the
+   explicit panic "fee rate charge must be non-negative" of the swap helper cannot fire.
+   (As found, without the cap, it fired whenever a step left less than one unit to spend.) *)
+Theorem fee_charge_not_reached_defined a rem fee : 0 <= fee -> 0 <= rem -> in_range rem = true -> 0 <= a ->
+  exists fc, fee_charge_out_given_in false (if rem <? a then rem else a) rem fee = Some fc /\
+             0 <= fc /\ (if rem <? a then rem else a) + fc <= rem.
+Proof.
+  intros Hf Hr Hin Ha. unfold fee_charge_out_given_in.
+  destruct (fee =? 0) eqn:E0; [exists 0; split; [reflexivity|]; destruct (rem <? a) eqn:E; lia|].
+  destruct (fee <? 0) eqn:E1; [lia|].
+  set (x := if rem <? a then rem else a).
+  assert (Hx : 0 <= x <= rem) by (unfold x; destruct (rem <? a) eqn:E; lia).
+  assert (Hs : dsub rem x = Some (rem - x)).
+  { unfold dsub, chk. assert (in_range (rem - x) = true) as ->; [|reflexivity].
+    unfold in_range in *. lia. }
+  rewrite Hs. cbn [obind]. destruct (rem - x <? 0) eqn:E2; [lia|].
+  exists (rem - x). split; [reflexivity|lia].
+Qed.
+(* as found: one unit rounded up against a remainder below one unit panics *)
+Example fee_charge_uncapped_panics : fee_charge_out_given_in false P 292929292928101474 10000000000000000 = None.
+Proof. vm_compute. reflexivity. Qed.
